@@ -78,12 +78,12 @@ Qed.
 (* ------------------------------------------------------------------ presence of a section *)
 Lemma present_in q keys n : In n keys -> present q keys n = true.
 Proof.
-  intro H. unfold present. destruct (q_missing_by_raw_key q); apply smem_In; [exact H|]. now apply in_map.
+  intro H. unfold present. destruct (raw_missing_test q); apply smem_In; [exact H|]. now apply in_map.
 Qed.
 
 Lemma present_incl q k1 k2 n : incl k1 k2 -> present q k1 n = true -> present q k2 n = true.
 Proof.
-  intros Hi. unfold present. destruct (q_missing_by_raw_key q); rewrite !smem_In; intro H.
+  intros Hi. unfold present. destruct (raw_missing_test q); rewrite !smem_In; intro H.
   - now apply Hi.
   - apply in_map_iff in H as (k & <- & Hk). apply in_map. now apply Hi.
 Qed.
@@ -93,15 +93,19 @@ Definition spelling_ok_keys (ke : list string) : bool :=
   forallb (fun k => negb (smem (norm k) (map norm linter_sections)) || smem k linter_sections) ke.
 Definition spelling_ok (E : list string) : bool := spelling_ok_keys (root_keys (analyse E)).
 Definition sections_distinct : bool := nodupb (map norm linter_sections).
+(* the test found in the repaired source is the normalised one: no vector tests literal keys any more *)
+Lemma raw_missing_test_off q : raw_missing_test q = false.
+Proof. unfold raw_missing_test. now destruct (q_missing_by_raw_key q). Qed.
+
 Definition agree (q : cquirks) (ke : list string) : Prop :=
   forall n, In n linter_sections -> present q ke n = smem (norm n) (map norm ke).
 
 Lemma agree_intro q ke : sections_distinct = true ->
-  q_missing_by_raw_key q = false \/ spelling_ok_keys ke = true -> agree q ke.
+  raw_missing_test q = false \/ spelling_ok_keys ke = true -> agree q ke.
 Proof.
   intros Hd [Hq|Hs] n Hn; unfold present.
   - now rewrite Hq.
-  - destruct (q_missing_by_raw_key q); [|reflexivity].
+  - destruct (raw_missing_test q); [|reflexivity].
     destruct (smem n ke) eqn:H1.
     + symmetry. apply smem_In. apply in_map. now apply smem_In.
     + destruct (smem (norm n) (map norm ke)) eqn:H2; [|reflexivity]. exfalso.
